@@ -116,3 +116,8 @@ def _(E, m, a, c0):
     if not (isinstance(v, Adt) and v.ty == 'CharSet'): return NotImplemented
     c = E.deref(a[1])
     return z3.Or(*[c == k for k in v.fields[0]])
+
+@pattern(r'<(?:num::bigint::|num_bigint::)?Sign as PartialEq>::(eq|ne)')
+def _(E, m, a, c0):
+    x, y = E.deref(a[0]), E.deref(a[1]); same = x.variant == y.variant
+    return z3.BoolVal(same if m.group(1) == 'eq' else not same)
